@@ -142,7 +142,8 @@ def _merge_with_enum(prop1: PropertyProtocol, prop2: PropertyProtocol) -> EnumPr
             class_info = prop2.class_info
         else:
             return PropertyError(detail="can't redefine an enum property with incompatible lists of values")
-        return _merge_common_attributes(evolve(prop1, values=values, class_info=class_info), prop2)
+        # prop1's default is converted again: it has to name a member of the class that was chosen
+        return _merge_common_attributes(evolve(prop1, values=values, class_info=class_info, default=None), prop1, prop2)
 
     # If enum values were specified for just one of the properties, use those.
     enum_prop = prop1 if isinstance(prop1, EnumProperty) else cast(EnumProperty, prop2)
@@ -168,7 +169,8 @@ def _merge_with_literal_enum(prop1: PropertyProtocol, prop2: PropertyProtocol) -
             class_info = prop2.class_info
         else:
             return PropertyError(detail="can't redefine a literal enum property with incompatible lists of values")
-        return _merge_common_attributes(evolve(prop1, values=values, class_info=class_info), prop2)
+        # prop1's default is converted again: it has to name a member of the class that was chosen
+        return _merge_common_attributes(evolve(prop1, values=values, class_info=class_info, default=None), prop1, prop2)
 
     # If enum values were specified for just one of the properties, use those.
     enum_prop = prop1 if isinstance(prop1, LiteralEnumProperty) else cast(LiteralEnumProperty, prop2)
